@@ -370,4 +370,105 @@ example : let secs : List Sec := [⟨0,0,0x300,0x1000,0x200,0x400,0⟩, ⟨0,0,0
   unfold WF
   decide
 
+/-! ### second audit round: header RVAs on file views, the buffer-blind conversion, `.bss` sections -/
+
+/-- no section of a table whose virtual extents all start at or beyond `soh` contains an rva below `soh` -/
+theorem firstV_none_below (soh : Nat) (secs : List Sec) (hva : ∀ s ∈ secs, soh ≤ s.va) (rva : Nat)
+    (hlt : rva < soh) : firstV secs rva = none := by
+  unfold firstV
+  rw [List.find?_eq_none]
+  intro s hs hc
+  have := hva s hs
+  simp only [Sec.containsRva, Bool.and_eq_true, decide_eq_true_eq] at hc
+  omega
+
+/-- **Header RVAs on a file view.**  `rva_to_file_offset` maps every rva below `SizeOfHeaders` to
+itself (pe.rs:87) whereas `slice` on a file view (`slice_file` → `range_file`, pe.rs:700-724) looks only
+at the section table: a non-null, aligned rva inside the header area that no section covers is
+`Bounds` — for every requested length, zero included.  (The property's clause "RVAs outside every
+section report out-of-bounds" is what `slice` does; "RVAs below SizeOfHeaders map to themselves" is
+about the conversion.  The two lookups therefore DISAGREE on the header area; `headers().image()` is
+the way to the header bytes of a file.) -/
+theorem C04_slice_below_headers_bounds (img : Img) (soh : Nat) (secs : List Sec) (rva min align : Nat)
+    (h0 : rva ≠ 0) (hlt : rva < soh) (hnone : firstV secs rva = none)
+    (hp : isPow2 align = true) (ha : (img.base + rva) % align = 0) :
+    sliceFile img secs rva min align = .err .bounds ∧ rvaToFileOffset soh secs rva = .ok rva := by
+  refine ⟨?_, C04_r2f_headers soh secs rva hlt⟩
+  rw [sliceFile_aligned img secs rva min align h0 hp ha, rangeFile_eq, hnone]
+
+/-- the same when every section starts at or beyond the headers (every `WF` table, every loader-made file) -/
+theorem C04_slice_below_headers_bounds_wf (img : Img) (soh : Nat) (secs : List Sec) (rva min align : Nat)
+    (hva : ∀ s ∈ secs, soh ≤ s.va) (h0 : rva ≠ 0) (hlt : rva < soh)
+    (hp : isPow2 align = true) (ha : (img.base + rva) % align = 0) :
+    sliceFile img secs rva min align = .err .bounds ∧ rvaToFileOffset soh secs rva = .ok rva :=
+  C04_slice_below_headers_bounds img soh secs rva min align h0 hlt (firstV_none_below soh secs hva rva hlt) hp ha
+
+/-- witness: `SizeOfHeaders = 0x20`, one section at rva 0x1000; rva 0x10 is `Bounds` for `slice`
+(every length, every alignment that divides it) and maps to file offset 0x10 -/
+example : let img : Img := ⟨⟨List.replicate 0x30 0⟩, 0⟩
+    let secs : List Sec := [⟨0, 0, 0x20, 0x1000, 0x10, 0x20, 0⟩]
+    (∀ s ∈ secs, 0x20 ≤ s.va) ∧ firstV secs 0x10 = none ∧
+    sliceFile img secs 0x10 0 1 = .err .bounds ∧ sliceFile img secs 0x10 4 4 = .err .bounds ∧
+    rvaToFileOffset 0x20 secs 0x10 = .ok 0x10 ∧ rvaToFileOffset 0x20 secs 0x1f = .ok 0x1f := by
+  decide +kernel
+
+/-- **`rva_to_file_offset` does not consult the buffer** (documented: "pure header arithmetic").  When
+the first section containing the rva stores it (`rva - VirtualAddress < SizeOfRawData`, raw range not
+wrapping) the answer is `PointerToRawData + (rva - VirtualAddress)` — whatever the buffer is; when that
+section's raw range does not lie inside the buffer (a truncated file) the offset answered may be at or
+beyond the end of the buffer, and `slice` at the same rva never succeeds (`range_file`:
+`image.get(..)` fails, `Invalid`). -/
+theorem C04_r2f_ignores_buffer (soh : Nat) (secs : List Sec) (hs : ∀ s ∈ secs, s.InRange) (rva : Nat)
+    (hr : rva < 4294967296) (hsoh : soh ≤ rva) (s : Sec) (hf : firstV secs rva = some s)
+    (hnw : s.prd + s.rs < 4294967296) (hlt : rva - s.va < s.rs) :
+    rvaToFileOffset soh secs rva = .ok (s.prd + (rva - s.va)) ∧
+    ∀ (img : Img), img.bytes.size < s.prd + s.rs →
+      (∀ min align r, sliceFile img secs rva min align ≠ .ok r) ∧
+      (rva ≠ 0 → sliceFile img secs rva 0 1 = .err .invalid) := by
+  refine ⟨?_, ?_⟩
+  · rw [C04_r2f_spec soh secs hs rva hr hsoh]
+    unfold specR2F
+    rw [hf]
+    show (if s.prd + s.rs ≥ 4294967296 then _ else _) = _
+    rw [if_neg (by omega), if_pos hlt]
+  · intro img hsz
+    refine ⟨?_, ?_⟩
+    · intro min align r h
+      obtain ⟨_, _, _, s', hf', _, h2, _⟩ := (C04_slice_file_ok_iff img secs hs rva min align hr r).1 h
+      rw [hf] at hf'
+      cases hf'
+      omega
+    · intro h0
+      rw [sliceFile_aligned img secs rva 0 1 h0 (by decide) (Nat.mod_one _), rangeFile_eq, hf]
+      have hsr := hs s (firstV_some hf).1
+      have : ¬ (s.prd ≤ wadd32 s.prd s.rs ∧ wadd32 s.prd s.rs ≤ img.bytes.size) := by
+        rw [rawRange_ok_iff hsr]; omega
+      show (match rangeOne img.bytes.size s rva 0 with
+        | .ok (o, l) => if (img.base + o) % 1 = 0 then Out.ok (⟨o, l, 1⟩ : Ref) else .err .misaligned
+        | .err e => .err e | .panic s => .panic s
+        | .ub s => .ub s | .diverge => .diverge) = _
+      unfold rangeOne
+      simp only [this, if_false]
+
+/-- witness: a section declaring 0x200 bytes of raw data at file offset 0x400 in a buffer of 0x410 bytes:
+rva 0x1100 "maps" to file offset 0x500 ≥ 0x410, and `slice` there is `Invalid` -/
+example : let img : Img := ⟨⟨List.replicate 0x410 0⟩, 0⟩
+    let secs : List Sec := [⟨0, 0, 0x300, 0x1000, 0x200, 0x400, 0⟩]
+    img.bytes.size = 0x410 ∧ firstV secs 0x1100 = some ⟨0, 0, 0x300, 0x1000, 0x200, 0x400, 0⟩ ∧
+    rvaToFileOffset 0x400 secs 0x1100 = .ok 0x500 ∧ sliceFile img secs 0x1100 0 1 = .err .invalid := by
+  decide +kernel
+
+/-- `WF` allows an ordinary `.bss` section (`SizeOfRawData = 0`, `PointerToRawData = 0`): the inversion
+theorems `C04_f2r_inverts_r2f` / `C04_r2f_inverts_f2r` apply to such tables (before the second audit
+round `WF` demanded `SizeOfHeaders ≤ PointerToRawData` of every section, which no table with a `.bss`
+satisfies); on the `.bss` section every rva is `ZeroFill`, on the stored section the inversion holds. -/
+example : let secs : List Sec := [⟨0,0,0x300,0x1000,0x200,0x400,0⟩, ⟨0,0,0x100,0x2000,0,0,0⟩]
+    WF 0x400 secs ∧ ¬ (0x400 ≤ (⟨0,0,0x100,0x2000,0,0,0⟩ : Sec).prd) ∧
+    rvaToFileOffset 0x400 secs 0x2010 = .err .zeroFill ∧
+    rvaToFileOffset 0x400 secs 0x1010 = .ok 0x410 ∧ fileOffsetToRva 0x400 secs 0x410 = .ok 0x1010 := by
+  intro secs
+  refine ⟨?_, by decide, by decide, by decide, by decide⟩
+  unfold WF
+  decide
+
 end Pelite.Pe
